@@ -11,7 +11,7 @@ THEOREM_FILE = "properties/C16.v"
 CASE_DEPS = ["theories/Highwater.v"]
 RULE = ("stream hier-highwater: seeded random fully wired hierarchies with children listed in execution order, long bypass wires, "
         "pass-throughs, through ports, non-negative integer sizes and local_ancillae resources, compiled by the real code with the "
-        "derived resource qubit_highwater; at natural-number points every node's reported highwater is compared inside Coq with the "
+        "derived resource qubit_highwater; at natural-number points, and at points with some negative parameters at which every port size is still non-negative, every node's reported highwater is compared inside Coq with the "
         "port-level model of calculate_highwater (tie) and with the wire-level cut specification (spec: ancillae + max over the "
         "cut before the first child, bypass + child highwater during each child, the cut after the last child; and >= total "
         "input size, >= total output size); non-trivial = some node has at least 2 children; distinct by canonical JSON hash")
@@ -34,6 +34,12 @@ def make_points(rng, names, n=3):
     pts = []
     for _ in range(n):
         pts.append({nm: [rng.randint(0, 7), 1] for nm in sorted(names)})
+    # parameters need not be non-negative, only the port sizes (a child releasing d qubits has an output of size N + d
+    # with d < 0): points with some negative values, used by the Coq side only where every port size is >= 0
+    for _ in range(n):
+        pts.append({nm: [rng.randint(-3, -1) if rng.random() < 0.3 else rng.randint(2, 9), 1] for nm in sorted(names)})
+    for _ in range(n):     # the allocation / release parameters dq small of either sign, everything else at least 2
+        pts.append({nm: [rng.choice([-2, -1, 1, 2]) if nm.split(".")[-1] == "dq" else rng.randint(2, 9), 1] for nm in sorted(names)})
     return pts
 
 
